@@ -389,16 +389,17 @@ impl Parser {
 
         debug_assert_eq!(pstn, self.pos - 1);
         if !self.expect(TokenKind::Comma) {
-            self.pos -=2;
-            self.advance();
+            // not `advance()`: that yields Eol for good once a comment has been reached
+            self.pos = pstn;
+            self.curr_tkn = self.token_list[self.pos].clone();
             return Ok(None)
         }
 
         let x = self.get_env_elements(false)?;
 
         if self.expect(TokenKind::Underline) {
-            self.pos = pstn-1;
-            self.advance();
+            self.pos = pstn;
+            self.curr_tkn = self.token_list[self.pos].clone();
             return Ok(None)
         }
 
